@@ -396,7 +396,7 @@ def run(ctx):
     jobs = []       # (schema#, tag, text, off, pop, orders)
     # corpus first (minimised past failures and the defect witnesses), against the first schema library
     for name, c in load_corpus():
-        jobs.append((c.get("schema_index", 0), "corpus-" + name, c["file"], c["data_offset"], c["pop"], c["orders"]))
+        jobs.append((c.get("schema_index", 0), "corpus-" + name, c["file"], c["data_offset"], c["pop"], c["orders"], c.get("class")))
     # exhaustive small reference graphs over `nd` (every graph on <=3 nodes with out-degree <=1, incl. self loops and cycles)
     s0 = schemas[0]
     small = []
@@ -410,16 +410,18 @@ def run(ctx):
         ids = [x["id"] for x in pop]
         import itertools
         ords = [list(p) for p in itertools.permutations(ids)][:6]
-        jobs.append((0, f"small-{k}", text, off, pop, ords))
+        jobs.append((0, f"small-{k}", text, off, pop, ords, None))
     for si, s in enumerate(schemas):
         for pi in range(npops):
             n = ctx.rng.randint(0, nmax) if pi % 5 else ctx.rng.randint(0, 4)
             pop = G.population(ctx.rng, s, n, cyc=ctx.rng.choice([0, 0.3, 0.6]))
-            text, off = G.render_file(ctx.rng, s, pop, lay=(pi % 4 != 0), cmt=(pi % 3 != 0))
-            jobs.append((si, f"s{si}p{pi}", text, off, pop, orders_for(ctx.rng, pop, norders)))
+            # with low probability one of the conforming shapes on which the two readers are known to have differed
+            cls = ctx.rng.choice(G.RISKY) if (pop and ctx.rng.random() < 0.08) else None
+            text, off = G.render_file(ctx.rng, s, pop, lay=(pi % 4 != 0), cmt=(pi % 3 != 0 and cls is None), risky=cls)
+            jobs.append((si, f"s{si}p{pi}", text, off, pop, orders_for(ctx.rng, pop, norders), cls))
 
     def work(j):
-        si, tag, text, off, pop, orders = j
+        si, tag, text, off, pop, orders, cls = j
         try:
             return j, check_file(exes[si], env, model, ctx.work, tag, text, off, pop, orders)
         except Exception as e:   # machinery
@@ -431,7 +433,9 @@ def run(ctx):
             results.append((j, pr))
     nprob = 0
     reported = False
-    for (si, tag, text, off, pop, orders), pr in results:
+    for (si, tag, text, off, pop, orders, cls), pr in results:
+        if cls:
+            ctx.hist("layout class probes", cls)
         ctx.count(1 + len(orders), key=hashlib.sha1(text.encode("latin-1")).hexdigest())
         ctx.hist("instances per file", min(len(pop) // 10 * 10, 60))
         ctx.hist("populations", "cyclic" if any(x["id"] in G.closure({y["id"]: G.refs_in_order(y) for y in pop}, x["id"]) for x in pop) else "acyclic")
@@ -443,12 +447,27 @@ def run(ctx):
             nprob += 1
     ctx.cov["correspondence"]["files"] = {"n": len(jobs), "with_problems": nprob, "wall_s": round(time.time() - t0, 1)}
     # violation search first: property failures on the implementation
-    for (si, tag, text, off, pop, orders), pr in results:
-        if any(p[0] == "property" for p in pr) and len(ctx.violations) < 3:
+    classified = set()
+    for (si, tag, text, off, pop, orders, cls), pr in results:
+        props = [p for p in pr if p[0] == "property"]
+        if not props:
+            continue
+        if cls:
+            # is the layout class the cause?  the same population in the canonical layout must be clean
+            t2, o2 = canonical(0, schemas[si], pop)
+            clean = not [p for p in check_file(exes[si], env, model, ctx.work, "cls", t2, o2, pop, orders) if p[0] == "property"]
+            if clean:
+                classified.add(tag)
+                ctx.violation("layout:" + cls, f"[{cls}] " + props[0][2],
+                              {"schema": G.express(schemas[si]), "file": text, "load_orders": orders[:1], "class": cls})
+                continue
+        if len([v for v in ctx.violations if not v[0].startswith("layout:")]) < 3:
             report(ctx, exes[si], env, model, schemas[si], pop, text, off, orders, pr, G.express(schemas[si]))
             reported = True
     if not ctx.violations:
-        for (si, tag, text, off, pop, orders), pr in results:
+        for (si, tag, text, off, pop, orders, cls), pr in results:
+            if tag in classified:
+                continue
             for kind, where, det in pr:
                 if kind in ("correspondence", "machinery", "generator"):
                     ctx.broken.append((f"{kind} {where} ({tag})", det + " (the oracle finds the property intact on this input)"))
